@@ -1,7 +1,109 @@
-/- line-protocol handler for model "gw" (stub until its model is built) -/
+/- line-protocol handler for model "gw" (C11, backend pool); same line format and
+   canonical output as harness/inproc/h_gw.c -/
+import LtVerif.Model.Gw
 namespace Driver
+open LtVerif LtVerif.Gw
+
+def gwScript (s : String) : Script :=
+  (s.splitOn ",").foldl (fun sc g =>
+    match g.toList with
+    | 'c' :: '=' :: r => { sc with conn := r }
+    | 'k' :: '=' :: r => { sc with sock := r }
+    | 's' :: '=' :: r => { sc with stat := r }
+    | 'w' :: '=' :: r => { sc with wr := r }
+    | 'r' :: '=' :: r => { sc with rd := r }
+    | 'v' :: '=' :: r => { sc with env := r }
+    | _ => sc) {}
+
+def gwFields (s : String) : List String := (s.splitOn ".").filter (· ≠ "")
+
+def gwOp (tok : String) : Option Op :=
+  match tok.toList with
+  | [] => none
+  | c :: rest =>
+    let f := gwFields (String.ofList rest)
+    let sc (i : Nat) : Script := match f[i]? with | some x => gwScript x | none => {}
+    match c, f with
+    | 'a', s :: k :: _ => do some (.arrive (← s.toNat?) (← k.toNat?) (sc 2))
+    | 'e', s :: m :: _ => do some (.event (← s.toNat?) (← m.toNat?) (sc 2))
+    | 's', s :: _ => do some (.wake (← s.toNat?) (sc 1))
+    | 'c', s :: _ => do some (.abort (← s.toNat?))
+    | 't', d :: _ => do some (.tick (← d.toNat?) (sc 1))
+    | _, _ => none
+
+def gwSpec (s : String) : Option HostSpec :=
+  match s.splitOn "." with
+  | [a, b, c, d, e, k] =>
+    match a.toNat?, b.toNat?, c.toNat?, d.toNat?, e.toNat?, k.toList with
+    | some a, some b, some c, some d, some e, [k] =>
+      if a ≥ 1 ∧ a ≤ 8 ∧ (k = 'r' ∨ k = 'u' ∨ k = 'l') then some ⟨a, b, c, d, e, k⟩ else none
+    | _, _, _, _, _, _ => none
+  | _ => none
+
+def gwEv : Ev → String
+  | .arrive (some h) => s!"A{h},"
+  | .arrive none => "A-,"
+  | .dispatch _ h p => s!"D{h}.{p},"
+  | .fin s st started trunc =>
+    s!"{s}=fin{st}" ++ (if started then "s" else "") ++ (if trunc then "t" else "") ++ ","
+  | .wait s => s!"{s}=wait,"
+  | .err s => s!"{s}=err,"
+  | .fdev m => s!"E{m},"
+  | .note m => if m = "W" ∨ m = "C" ∨ m = "T" then m ++ "," else m
+
+def gwPState : PState → String
+  | .running => "R" | .overloaded => "O" | .diedWait => "W" | .died => "D" | .killed => "K"
+
+def gwCState : CState → Nat
+  | .init => 0 | .connectDelayed => 1 | .prepareWrite => 2 | .write => 3 | .read => 4
+
+def gwOptIdx : Option Nat → String
+  | some i => toString i
+  | none => "-1"
+
+def gwDump (w : World) : String :=
+  let hosts := (List.range w.nhosts).map fun h =>
+    let H := w.host h
+    let q := if H.hctxs.isEmpty then "-" else String.intercalate "-" (H.hctxs.map toString)
+    let ps := (List.range H.nprocs).map fun p =>
+      let P := w.proc h p
+      s!",P{gwPState P.state}{P.load},{P.statLoad},{P.disabledUntil}"
+    s!"H{H.load},{H.statLoad},{H.active},Q{q}" ++ String.join ps ++ ";"
+  let slots := (List.range w.nslots).map fun s =>
+    match w.slot s with
+    | none => "S-;"
+    | some c =>
+      if !c.link.hctx then "S!;" else
+      let a := c.aux
+      let ev := (if a.evIn then 1 else 0) + (if a.evOut then 2 else 0) + (if a.evRdhup then 8 else 0)
+      s!"S{gwOptIdx c.link.host}.{gwOptIdx c.link.proc}.{gwCState c.link.state}.{a.reconnects}." ++
+      s!"{if c.link.fd then 1 else 0}.{ev}.{if a.started then 1 else 0}.{a.wbLen}.{a.bytesOut}." ++
+      s!"{a.readTs}.{a.writeTs};"
+  String.join hosts ++ String.join slots ++
+    s!"G{w.globalActive},F{w.curFds},L{w.lastUsed},N{if w.noteSent then 1 else 0},T{w.now}"
+
+def gwRunOps (w : World) (toks : List String) : World × List String :=
+  toks.foldl (fun (acc : World × List String) tok =>
+    let w := acc.1
+    match gwOp tok with
+    | none => (w, (("bad#" ++ gwDump w) :: acc.2))
+    | some op =>
+      let n := w.log.length
+      let w' := compact (step w op)
+      let evs := (w'.log.take (w'.log.length - n)).reverse
+      (w', (String.join (evs.map gwEv) ++ "#" ++ gwDump w') :: acc.2)) (w, [])
 
 def gwLine : List String → String
+  | "gw" :: bal :: wkr :: ns :: hosts :: ops =>
+    match bal.toNat?, wkr.toNat?, ns.toNat?, ((hosts.splitOn "/").filter (· ≠ "")).mapM gwSpec with
+    | some b, some k, some n, some specs =>
+      if n < 1 ∨ n > 16 ∨ b > 3 ∨ specs.isEmpty ∨ specs.length > 16 then "bad-op" else
+      let w0 := initWorld b (k ≠ 0) n specs
+      let r := gwRunOps w0 ops
+      -- end of case: every connection is reset, then the deferred closes run
+      let wf := schedRun ((List.range n).foldl (fun w s => finish w s true) r.1)
+      String.intercalate " | " (r.2.reverse ++ [s!"end:{(wf.opened : Int) - wf.closed},{wf.curFds}"])
+    | _, _, _, _ => "bad-op"
   | _ => "bad-op"
 
 end Driver
